@@ -1,4 +1,284 @@
+//! C22: tenant / pipeline metadata through the REST handlers onto a crashing StateStore, then recovery.
+//!
+//! Request: {"prop":"C22","ops":[["create","t1"],["deploy","t1","p1",0],["reload","t1","p1",1],["delpipe","t1","p1"],
+//!                               ["deltenant","t1"],["restart"]], "crash_after": <number of store writes before the crash> | null}
+//! The store wrapper lets `crash_after` writes (put/delete) through and then freezes: the write in progress and
+//! all later ones are lost, which is what a process crash at that point leaves on the store. The history stops
+//! at the operation during which the store froze (the in-flight operation).
+//! Answer: {"steps":[{"status":<http>,"writes":n,"frozen":bool}...], "store":{...}, "recovered":[...]}
+//! with tenant / pipeline ids replaced by the symbolic names of the history.
 use serde_json::{json, Value as J};
-pub fn c22(_req: &J, _rt: &tokio::runtime::Runtime) -> J {
-    json!({"error": "not yet"})
+use std::collections::HashMap;
+use std::sync::atomic::{AtomicBool, AtomicI64, AtomicU64, Ordering};
+use std::sync::Arc;
+use varpulis_runtime::persistence::{Checkpoint, MemoryStore, StateStore, StoreError};
+use varpulis_runtime::tenant::{SharedTenantManager, TenantManager};
+
+pub const SOURCES: [&str; 3] = [
+    "stream S = A\n    .where(x > 1)\n    .emit(x: x)\n",
+    "stream S = A\n    .where(x > 2)\n    .emit(y: x)\n",
+    "stream S2 = B\n    .emit(z: z)\n",
+];
+
+pub struct CrashingStore {
+    inner: Arc<MemoryStore>,
+    left: AtomicI64,
+    frozen: AtomicBool,
+    writes: AtomicU64,
+    log: std::sync::Mutex<Vec<String>>,
+}
+
+impl CrashingStore {
+    fn new(inner: Arc<MemoryStore>, crash_after: Option<i64>) -> Self {
+        Self {
+            inner,
+            left: AtomicI64::new(crash_after.unwrap_or(-1)),
+            frozen: AtomicBool::new(false),
+            writes: AtomicU64::new(0),
+            log: std::sync::Mutex::new(Vec::new()),
+        }
+    }
+    fn admit(&self, what: String) -> Result<(), StoreError> {
+        if self.frozen.load(Ordering::SeqCst) {
+            return Err(StoreError::IoError("crashed".into()));
+        }
+        let l = self.left.load(Ordering::SeqCst);
+        if l == 0 {
+            self.frozen.store(true, Ordering::SeqCst);
+            return Err(StoreError::IoError("crashed".into()));
+        }
+        if l > 0 {
+            self.left.store(l - 1, Ordering::SeqCst);
+        }
+        self.writes.fetch_add(1, Ordering::SeqCst);
+        self.log.lock().unwrap().push(what);
+        Ok(())
+    }
+}
+
+impl StateStore for CrashingStore {
+    fn save_checkpoint(&self, c: &Checkpoint) -> Result<(), StoreError> {
+        self.admit(format!("ckpt:{}", c.id))?;
+        self.inner.save_checkpoint(c)
+    }
+    fn load_latest_checkpoint(&self) -> Result<Option<Checkpoint>, StoreError> {
+        self.inner.load_latest_checkpoint()
+    }
+    fn load_checkpoint(&self, id: u64) -> Result<Option<Checkpoint>, StoreError> {
+        self.inner.load_checkpoint(id)
+    }
+    fn list_checkpoints(&self) -> Result<Vec<u64>, StoreError> {
+        self.inner.list_checkpoints()
+    }
+    fn prune_checkpoints(&self, keep: usize) -> Result<usize, StoreError> {
+        self.inner.prune_checkpoints(keep)
+    }
+    fn put(&self, key: &str, value: &[u8]) -> Result<(), StoreError> {
+        self.admit(format!("put {}", key))?;
+        self.inner.put(key, value)
+    }
+    fn get(&self, key: &str) -> Result<Option<Vec<u8>>, StoreError> {
+        self.inner.get(key)
+    }
+    fn delete(&self, key: &str) -> Result<(), StoreError> {
+        self.admit(format!("delete {}", key))?;
+        self.inner.delete(key)
+    }
+    fn flush(&self) -> Result<(), StoreError> {
+        Ok(())
+    }
+}
+
+struct Names {
+    tenants: HashMap<String, (String, String)>, // tname -> (id, api key)
+    pipes: HashMap<(String, String), String>,   // (tname, pname) -> id
+}
+
+impl Names {
+    fn tname(&self, id: &str) -> String {
+        self.tenants.iter().find(|(_, v)| v.0 == id).map(|(k, _)| k.clone()).unwrap_or_else(|| format!("?{}", id))
+    }
+    fn pname(&self, id: &str) -> String {
+        self.pipes.iter().find(|(_, v)| v.as_str() == id).map(|(k, _)| k.1.clone()).unwrap_or_else(|| format!("?{}", id))
+    }
+    fn key_owner(&self, key: &str) -> String {
+        self.tenants.iter().find(|(_, v)| v.1 == key).map(|(k, _)| k.clone()).unwrap_or_else(|| "?".into())
+    }
+}
+
+fn source_name(src: &str) -> String {
+    SOURCES.iter().position(|s| *s == src).map(|i| format!("src{}", i)).unwrap_or_else(|| "?src".into())
+}
+
+fn dump_store(inner: &MemoryStore, names: &Names) -> J {
+    let index: J = match inner.get("tenants:index").unwrap() {
+        None => J::Null,
+        Some(d) => {
+            let ids: Vec<String> = serde_json::from_slice(&d).unwrap_or_default();
+            json!(ids.iter().map(|i| names.tname(i)).collect::<Vec<_>>())
+        }
+    };
+    let mut snaps = Vec::new();
+    for (tname, (id, _)) in &names.tenants {
+        if let Some(d) = inner.get(&format!("tenant:{}", id)).unwrap() {
+            let v: J = serde_json::from_slice(&d).unwrap_or(J::Null);
+            let mut pipes: Vec<J> = v["pipelines"]
+                .as_array()
+                .cloned()
+                .unwrap_or_default()
+                .iter()
+                .map(|p| {
+                    json!([names.pname(p["id"].as_str().unwrap_or("")), p["name"], source_name(p["source"].as_str().unwrap_or("")), p["status"]])
+                })
+                .collect();
+            pipes.sort_by_key(|p| p.to_string());
+            snaps.push(json!([tname, names.tname(v["id"].as_str().unwrap_or("")), v["name"], names.key_owner(v["api_key"].as_str().unwrap_or("")), pipes]));
+        }
+    }
+    snaps.sort_by_key(|p| p.to_string());
+    json!({"index": index, "snapshots": snaps})
+}
+
+fn dump_manager(mgr: &TenantManager, names: &Names) -> J {
+    let mut ts = Vec::new();
+    for t in mgr.list_tenants() {
+        let mut pipes: Vec<J> = t
+            .pipelines
+            .values()
+            .map(|p| json!([names.pname(&p.id), p.name, source_name(&p.source), p.status.to_string()]))
+            .collect();
+        pipes.sort_by_key(|p| p.to_string());
+        let by_key = mgr.get_tenant_by_api_key(&t.api_key).map(|i| names.tname(i.as_str())).unwrap_or_else(|| "-".into());
+        ts.push(json!([names.tname(t.id.as_str()), t.name, names.key_owner(&t.api_key), by_key, pipes]));
+    }
+    ts.sort_by_key(|p| p.to_string());
+    json!(ts)
+}
+
+fn new_manager(store: Arc<dyn StateStore>) -> (SharedTenantManager, Result<usize, String>) {
+    let mut mgr = TenantManager::with_store(store);
+    let r = mgr.recover().map_err(|e| e.to_string());
+    (Arc::new(tokio::sync::RwLock::new(mgr)), r)
+}
+
+pub fn c22(req: &J, rt: &tokio::runtime::Runtime) -> J {
+    let inner = Arc::new(MemoryStore::new());
+    let crash_after = req["crash_after"].as_i64();
+    let store = Arc::new(CrashingStore::new(inner.clone(), crash_after));
+    let (mut shared, _) = new_manager(store.clone());
+    let mut names = Names { tenants: HashMap::new(), pipes: HashMap::new() };
+    let mut steps = Vec::new();
+    for op in req["ops"].as_array().unwrap() {
+        if store.frozen.load(Ordering::SeqCst) {
+            break;
+        }
+        let before = store.writes.load(Ordering::SeqCst);
+        let kind = op[0].as_str().unwrap();
+        let status: u16 = rt.block_on(async {
+            let routes = varpulis_cli::api::api_routes(shared.clone(), Some("adm".to_string()));
+            match kind {
+                "create" => {
+                    let t = op[1].as_str().unwrap();
+                    let r = warp::test::request()
+                        .method("POST")
+                        .path("/api/v1/tenants")
+                        .header("x-admin-key", "adm")
+                        .json(&json!({"name": t, "quota_tier": "enterprise"}))
+                        .reply(&routes)
+                        .await;
+                    if r.status().is_success() {
+                        let b: J = serde_json::from_slice(r.body()).unwrap();
+                        names.tenants.insert(t.to_string(), (b["id"].as_str().unwrap().to_string(), b["api_key"].as_str().unwrap().to_string()));
+                    }
+                    r.status().as_u16()
+                }
+                "deltenant" => {
+                    let t = op[1].as_str().unwrap();
+                    let id = names.tenants.get(t).map(|x| x.0.clone()).unwrap_or_else(|| "unknown".into());
+                    warp::test::request()
+                        .method("DELETE")
+                        .path(&format!("/api/v1/tenants/{}", id))
+                        .header("x-admin-key", "adm")
+                        .reply(&routes)
+                        .await
+                        .status()
+                        .as_u16()
+                }
+                "deploy" => {
+                    let t = op[1].as_str().unwrap();
+                    let p = op[2].as_str().unwrap();
+                    let key = names.tenants.get(t).map(|x| x.1.clone()).unwrap_or_else(|| "nokey".into());
+                    let r = warp::test::request()
+                        .method("POST")
+                        .path("/api/v1/pipelines")
+                        .header("x-api-key", key)
+                        .json(&json!({"name": p, "source": SOURCES[op[3].as_u64().unwrap() as usize]}))
+                        .reply(&routes)
+                        .await;
+                    if r.status().is_success() {
+                        let b: J = serde_json::from_slice(r.body()).unwrap();
+                        names.pipes.insert((t.to_string(), p.to_string()), b["id"].as_str().unwrap().to_string());
+                    }
+                    r.status().as_u16()
+                }
+                "delpipe" | "reload" => {
+                    let t = op[1].as_str().unwrap();
+                    let p = op[2].as_str().unwrap();
+                    let key = names.tenants.get(t).map(|x| x.1.clone()).unwrap_or_else(|| "nokey".into());
+                    let pid = names.pipes.get(&(t.to_string(), p.to_string())).cloned().unwrap_or_else(|| "nopipe".into());
+                    if kind == "delpipe" {
+                        warp::test::request()
+                            .method("DELETE")
+                            .path(&format!("/api/v1/pipelines/{}", pid))
+                            .header("x-api-key", key)
+                            .reply(&routes)
+                            .await
+                            .status()
+                            .as_u16()
+                    } else {
+                        warp::test::request()
+                            .method("POST")
+                            .path(&format!("/api/v1/pipelines/{}/reload", pid))
+                            .header("x-api-key", key)
+                            .json(&json!({"source": SOURCES[op[3].as_u64().unwrap() as usize]}))
+                            .reply(&routes)
+                            .await
+                            .status()
+                            .as_u16()
+                    }
+                }
+                "restart" => {
+                    let (m, r) = new_manager(store.clone());
+                    shared = m;
+                    if r.is_ok() {
+                        200
+                    } else {
+                        500
+                    }
+                }
+                other => panic!("op {}", other),
+            }
+        });
+        let after = store.writes.load(Ordering::SeqCst);
+        steps.push(json!({"status": status, "writes": after - before, "frozen": store.frozen.load(Ordering::SeqCst)}));
+    }
+    // the process is gone; a new server starts on what the store holds
+    let store_dump = dump_store(&inner, &names);
+    let (fresh, rec) = new_manager(inner.clone());
+    let recovered = rt.block_on(async {
+        let m = fresh.read().await;
+        dump_manager(&m, &names)
+    });
+    let log = store.log.lock().unwrap().clone();
+    let log: Vec<String> = log
+        .iter()
+        .map(|l| {
+            let mut s = l.clone();
+            for (t, (id, _)) in &names.tenants {
+                s = s.replace(id.as_str(), t);
+            }
+            s
+        })
+        .collect();
+    json!({"steps": steps, "store": store_dump, "recover_result": rec.map(|n| n as i64).unwrap_or(-1), "recovered": recovered, "writes_log": log})
 }
